@@ -2,6 +2,7 @@ from typing import TYPE_CHECKING, Callable, Dict, List, NamedTuple, Optional, Se
 
 from django.template import Library
 from django.template.base import Parser, Token
+from django.utils.text import smart_split
 
 from django_components.app_settings import ContextBehaviorType, app_settings
 from django_components.library import is_tag_protected, mark_protected_tags, register_tag
@@ -471,7 +472,10 @@ class ComponentRegistry:
         # the component name and passing the rest to the actual tag function.
         def tag_fn(parser: Parser, token: Token) -> ComponentNode:
             # Let the TagFormatter pre-process the tokens
-            bits = token.split_contents()
+            # NOTE: We don't use `token.split_contents()`, because its special handling of translation
+            # strings `_("...")` is not aware of lists and dicts (e.g. `key=[ _("abc")]`), and it raises
+            # StopIteration on such input. Our own tag parser handles the translation strings anyway.
+            bits = list(smart_split(token.contents))
             formatter = get_tag_formatter(registry)
             result = formatter.parse([*bits])
             start_tag = formatter.start_tag(result.component_name)
